@@ -211,8 +211,16 @@ func c08Headers(name string) Headers {
 	switch vChoose(name+".cs", 3) {
 	case 1:
 		h.Unprotected[HeaderLabelCounterSignatureV2] = c13ValidCountersignature(name + ".cs1")
-	case 2:
-		h.Unprotected[HeaderLabelCounterSignature] = []*Countersignature{c13ValidCountersignature(name + ".cs2a"), c13ValidCountersignature(name + ".cs2b")}
+	case 2: // lists of 1..4 (a list of three has the same array head as a single countersignature)
+		var list []*Countersignature
+		k := []int{1, 3}[vChoose(name+".csn", 2)]
+		if vTier() == 1 {
+			k = 1 + vChoose(name+".csn4", 4)
+		}
+		for i := 0; i < k; i++ {
+			list = append(list, c13ValidCountersignature(name+".cs2"+vItoa(i)))
+		}
+		h.Unprotected[[]int64{HeaderLabelCounterSignature, HeaderLabelCounterSignatureV2}[vChoose(name+".cslabel", 2)]] = list
 	}
 	return h
 }
